@@ -353,6 +353,23 @@ func (ar *c40ActorRun) execFakePub(w *c40World, s c40Step) string {
 		ar.curPub.Detach()
 		ar.curPub = nil
 		return "ok"
+	case "churn":
+		if ar.curPub != nil {
+			ar.curPub.Detach()
+			ar.curPub = nil
+		}
+		for i := 0; i <= s.Arg+4; i++ {
+			if w.stopping.Load() {
+				return "err:server is shutting down"
+			}
+			p, err := vcAttachPub(w.pm.Load(), s.Path, "pub")
+			if err != nil {
+				return c40ErrOutcome(err)
+			}
+			ar.pubs = append(ar.pubs, p)
+			p.Detach()
+		}
+		return "ok"
 	case "safeconf":
 		// what every protocol session does with the path it was given (hooks, recording, timeouts)
 		if ar.curPub == nil {
@@ -369,6 +386,14 @@ func (ar *c40ActorRun) execFakePub(w *c40World, s c40Step) string {
 
 func (ar *c40ActorRun) execFakeRdr(w *c40World, s c40Step) string {
 	switch s.Op {
+	case "pmgetBurst":
+		for i := 0; i < (s.Arg+5)*40; i++ {
+			if w.stopping.Load() {
+				return "err:server is shutting down"
+			}
+			w.pm.Load().APIPathsGet(s.Path) //nolint:errcheck
+		}
+		return "ok"
 	case "attach":
 		r, err := vcAttachRdr(w.pm.Load(), s.Path, nil)
 		if err != nil {
@@ -551,6 +576,15 @@ func (ar *c40ActorRun) execAPI(w *c40World, s c40Step) string {
 		return get("/v3/paths/list")
 	case "pathsGet":
 		return get(c40Route("/v3/paths/get/", s.Path))
+	case "pathsGetBurst":
+		out := "ok"
+		for i := 0; i <= s.Arg+10; i++ {
+			if w.stopping.Load() {
+				break
+			}
+			out = get(c40Route("/v3/paths/get/", s.Path))
+		}
+		return out
 	case "rtspSessionsList":
 		return get("/v3/rtspsessions/list")
 	case "rtspConnsList":
